@@ -12,10 +12,23 @@ with the specification at a pixel set instead of everywhere, because the exact s
 sample, all pixels of full rows/columns (1-D: segments) near size/2, near multiples of 256/128/64
 (1-D: 65536, 32768, ...) and at random places - and every pixel at which the implementation differs
 from the Lean mechanism model, which (unless the case says `with_model: false`) is still compared at
-ALL pixels.  The driver op `c13.at` evaluates the same Lean definitions as `c13.filter`."""
+ALL pixels.  The driver op `c13.at` evaluates the same Lean definitions as `c13.filter`.
+
+Three families of cases.  The dyadic streams (`data`/`den`/`offset`): every window sum is exact in
+binary64, a pixel is undetermined only within 1e-9 relative of its threshold.  The float streams
+(`stream: fconst | fgen`, values given as hex floats, dtypes float64 / float32 / integer): arbitrary
+doubles; a pixel is undetermined only when its exact decision margin (from the rationals the driver
+returns) is within a rounding bound of the float evaluation (`FloatTol`), everything else is demanded.
+In every family the clauses "constant images and infinite thresholds come back unchanged" are demanded
+bit for bit wherever the Lean condition `mustBeUnchanged` holds.  pewlib does not meet that for the mean
+filter on constant images whose window sums are inexact in the computing format: `known()` recognises
+exactly that signature (known finding C13-constant-image-rounding; bound and exactness test from the
+driver op `c13.constinfo`, theorems `rounded_mean_of_constant_within_bound` / `_exact`)."""
+import json
 import math
 import os
 import random
+import struct
 import sys
 import warnings
 from fractions import Fraction
@@ -87,28 +100,149 @@ def thr_float(t):
     return math.inf if t == "inf" else float.fromhex(t)
 
 
-def build(case):
+def fbits(v):
+    return struct.unpack("<Q", struct.pack("<d", float(v)))[0]
+
+
+KNOWN_CONST = "C13-constant-image-rounding"
+FLOAT_DTYPES = {"float64": (53, -1074), "float32": (24, -149)}
+INT_DTYPES = ("int64", "int32", "uint8", "uint16")
+MAX_ABS = 1e300  # |x| above ~9e307 overflows (a + b) in np.median of two pad values; squares of rounding noise may be inf
+
+
+def hexf(v):
+    return float(v).hex()
+
+
+def case_values(case):
+    """the float64 values the case describes (before the dtype cast), row-major"""
+    if "stream" in case:
+        if "fconst" in case:
+            return [float.fromhex(case["fconst"])] * int(np.prod(case["shape"]))
+        return [float.fromhex(h) for h in case["fdata"]]
     den = case["den"]
-    arr = np.array([float(Fraction(v, den) + case["offset"]) for v in case["data"]], dtype=np.float64).reshape(case["shape"])
-    vals = [Fraction(float(v)) for v in arr.ravel()]  # exactly the floats handed to pewlib
+    return [float(Fraction(v, den) + case["offset"]) for v in case["data"]]
+
+
+def build(case):
+    """-> (vals, x, base): the exact values handed to pewlib, the array itself (dtype, memory layout,
+    writeable flag of the case) and the buffer it is a view of (None when it owns its data)"""
+    dtype = np.dtype(case.get("dtype", "float64"))
+    arr = np.array(case_values(case), dtype=np.float64).reshape(case["shape"]).astype(dtype)
+    vals = [Fraction(int(v)) if dtype.kind in "iu" else Fraction(float(v)) for v in arr.ravel()]
     lay = case["layout"]
+    base = None
     if lay == "F":
         arr = np.asfortranarray(arr)
     elif lay == "strided":  # a non-contiguous view into a larger buffer
-        big = np.full(tuple(2 * s for s in case["shape"]), -777.0)
+        fill = dtype.type(77) if dtype.kind in "iu" else dtype.type(-777.0)
+        base = np.full(tuple(2 * s for s in case["shape"]), fill, dtype=dtype)
         sl = tuple(slice(0, None, 2) for _ in case["shape"])
-        big[sl] = arr
-        arr = big[sl]
-    return vals, arr
+        base[sl] = arr
+        arr = base[sl]
+    elif lay == "reversed":  # negative strides along every axis
+        base = np.ascontiguousarray(arr[tuple(slice(None, None, -1) for _ in case["shape"])])
+        arr = base[tuple(slice(None, None, -1) for _ in case["shape"])]
+    if case.get("readonly"):
+        if base is not None:
+            base.flags.writeable = False
+        arr.flags.writeable = False
+    return vals, arr, base
+
+
+def sqrt_bounds(q):
+    """rational bounds lo <= sqrt(q) <= hi, hi - lo below 2^-90 relative"""
+    if q <= 0:
+        return Fraction(0), Fraction(0)
+    n, d = q.numerator, q.denominator
+    k = max(0, (200 - (n.bit_length() - d.bit_length())) // 2 + 1)
+    r = math.isqrt((n << (2 * k)) // d)
+    return Fraction(r, 1 << k), Fraction(r + 1, 1 << k)
+
+
+class FloatTol:
+    """rounding bounds of a float evaluation of one pixel's decision, in exact rational arithmetic.
+
+    u = unit roundoff of the computing format, A >= every |value| of the image, N = values per window,
+    P = roundings that may sit in a pad value (0 when the pixel's windows hold real pixels only).
+    Mean filter: m^ = fl-mean of N values, |m^ - m| <= (N+P) u A(1+..); d^ = fl(x - m^); the masked mean likewise;
+    every deviation v - mm^ is off by at most (N+P+2) u A, the root mean square moves by at most the largest
+    perturbation, squaring/summing/dividing/root add (N/2+2) u relative; t*s one more rounding.  Everything is
+    doubled.  Underflow of the squares (flush below 2^emin_normal) costs `tiny_sd` absolute in the spread.
+    Median filter: medians are selections (exact on real windows); d^ = fl|x - med| (u relative); the MAD is the
+    median of rounded deviations = rounded median (rounding is monotone), times 1.4826, times t: three roundings,
+    a fourth for the float32 constant.  A pad value (mean of the two middle values of an even count) carries one
+    rounding per axis; order statistics move by at most the largest perturbation."""
+
+    def __init__(self, p, block, scale, t, t_used, int_data=False):
+        self.int_data = int_data  # integer pixels: every window sum is exact in binary64
+        self.u = Fraction(1, 2 ** p)
+        self.A = Fraction(scale)
+        self.N = int(np.prod(block))
+        self.P = sum(b // 2 for b in block) + 2
+        self.t = None if math.isinf(t) else Fraction(t)
+        self.inf_used = math.isinf(t_used)  # float32: a finite threshold that overflows to inf in the computing dtype
+        # relative change of the threshold by its conversion to the computing dtype (0 when exactly representable)
+        self.t_rel = Fraction(0) if math.isinf(t) or t == 0 or math.isinf(t_used) else abs(Fraction(t_used) - Fraction(t)) / Fraction(t)
+        self.t_zeroed = (not math.isinf(t)) and t != 0 and t_used == 0  # underflow of the threshold to 0
+        self.tiny_sd = Fraction(1, 2 ** 537) if p == 53 else Fraction(1, 2 ** 74)
+        self.tiny = Fraction(1, 2 ** 1070) if p == 53 else Fraction(1, 2 ** 146)
+
+    def repl_tol(self, kind, real):
+        if kind == "mean":
+            return 2 * (self.N + self.P + 2) * self.u * self.A
+        return Fraction(0) if real else 8 * self.u * self.A
+
+    def margin(self, kind, cell, real):
+        """-> 'out' | 'in' | 'near' from the exact lhs/rhs of the cell"""
+        if cell["rhs"] is None:
+            return "in"  # infinite threshold: inf*s is inf or NaN, the comparison is false
+        if self.inf_used:
+            return "near"
+        lhs, rhs = unrat(cell["lhs"]), unrat(cell["rhs"])
+        u, A, t = self.u, self.A, self.t
+        if kind == "mean":
+            if self.int_data and real and lhs == 0:
+                return "in"  # the window mean is the integer x itself, computed exactly: |x - m| is 0 in floats too
+            d_lo, d_hi = sqrt_bounds(lhs)
+            r_lo, r_hi = sqrt_bounds(rhs)
+            n = self.N + (0 if real else self.P)
+            e = 2 * ((n + 4) * u * A * (1 + t) + (Fraction(n, 2) + 4) * u * r_hi + t * self.tiny_sd)
+        else:
+            if real and (lhs == 0 or rhs == 0) and not self.t_zeroed:
+                # x - med is exact when it is 0, a float difference is 0 only then, rounding keeps the order of the
+                # deviations (their median is 0 exactly when the exact one is) and 0 times anything finite is 0
+                return "out" if lhs > 0 else "in"
+            d_lo = d_hi = lhs
+            r_lo = r_hi = rhs
+            e = 2 * (u * d_hi + 6 * u * r_hi + (1 + t) * self.tiny)
+            if not real:
+                e += 2 * (4 + 16 * t) * u * A
+        e += 2 * self.t_rel * r_hi
+        if self.t_zeroed:
+            e += r_hi
+        if d_lo - r_hi > e:
+            return "out"
+        if r_lo - d_hi >= e:
+            return "in"
+        return "near"
 
 
 class C13(Prop):
     id = "C13"
     anchored = ["src/pewlib/process/filters.py", "src/pewlib/process/calc.py"]
-    cases = {"quick": 260, "thorough": 6000}
-    rule = ("1-D (n = b..60) and 2-D (sides b..26) dyadic images: noise, ramps, plateaus, two-valued ties, constants, with isolated "
+    cases = {"quick": 380, "thorough": 8000}
+    rule = ("60%: 1-D (n = b..60) and 2-D (sides b..26) dyadic images: noise, ramps, plateaus, two-valued ties, constants, with isolated "
             "spikes, spike clusters and constant regions; odd windows 3..9 per axis (equal or not, int or tuple), thresholds 0, "
-            "finite, inf; C/F/strided layouts; offsets 0/1000/2^20. non-trivial = at least one interior pixel is replaced, or a "
+            "finite, inf; C/F/strided layouts, read-only or writeable; offsets 0/1000/2^20. 16%: float stream `fconst` - constant "
+            "images of non-dyadic doubles (k/3, k/10, k/1000, pi-like, large offsets, 1e-300..1e300, random) and of dyadic ones "
+            "(few bits: window sums exact; many bits: not), windows 3..13 (1-D) / 3..9 per axis (2-D), thresholds 0, 5e-324, 1e-300, "
+            "1e-16, ..., 1, 3, 1e6, 1e300, inf, both filters, dtypes float64 / float32 / integer, C/F/strided/reversed, read-only: the "
+            "input is demanded back bit for bit. 24%: float stream `fgen` - arbitrary doubles (Gaussian, uniform, log-normal, plateaus, "
+            "two-valued, ramps with noise; magnitudes 1e-120..1e120; spikes, clusters, constant regions), float32 and integer "
+            "dtypes: a pixel is undetermined only when its exact margin |x-centre| - t*spread (rationals from the driver) is within "
+            "the rounding bound of FloatTol (about (N+4)*2^-53*max|x|*(1+t)), otherwise its value is demanded; replaced values to "
+            "2(N+P+2)*2^-53*max|x| (mean) or exactly (median, real windows). non-trivial = at least one interior pixel is replaced, or a "
             "border pixel is replaced, or the image is constant, or the threshold is 0/inf; distinct by canonical case hash. "
             "Large class (targeted, data drawn from VERIF_SEED): 2-D images above 2^16 (quick and thorough) and above 2^17 "
             "(thorough) elements, 1-D signals above 2^16 / 2^17 samples, both filters, windows 3..7, integer noise / gradient / "
@@ -118,9 +252,21 @@ class C13(Prop):
             "every pixel where mechanism and implementation differ, every changed pixel (capped), a random sample and full "
             "rows/columns/segments (see module docstring)")
     trusted = ["np.pad(mode='mean'|'median', stat_length), np.mean/np.std(where=), np.median, np.where, as_strided as documented; "
-               "float evaluation of |x-m| > t*s is within 1e-9 relative (+1e-12*max|x|*(1+t) absolute) of the exact value: pixels "
-               "whose exact margin is smaller may take either value; replacement values compared at 1e-9 relative"]
-    assumptions = ["float64 images with dyadic values (window sums are exact); odd windows; image at least one window per axis"]
+               "dyadic streams: float evaluation of |x-m| > t*s is within 1e-9 relative (+1e-12*max|x|*(1+t) absolute) of the exact "
+               "value: pixels whose exact margin is smaller may take either value; replacement values compared at 1e-9 relative",
+               "float streams: IEEE arithmetic follows the standard model |fl(a op b) - (a op b)| <= u*|a op b| (u = 2^-53, float32 "
+               "2^-24) with correctly rounded sqrt, and NumPy sums a window with at most N-1 rounded additions in some order; the "
+               "bounds of FloatTol (doubled) follow from that; the bound inside which a changed constant image counts as the known "
+               "finding is Lean's constBound (theorem rounded_mean_of_constant_within_bound) with depth h0+h1+b0*b1",
+               "the binary64 mechanism Pew.Filters.F64 (NumPy's order of evaluation) is compared with pewlib bit for bit and the "
+               "agreement reported as a feature (f64-mechanism:bit-equal); it is not part of the verdict - the property fixes no order"]
+    assumptions = ["odd windows; image at least one window per axis; no NaN; |x| <= 1e300 in constant images and <= 1e150 otherwise "
+                   "(no overflow of a window sum, of the sum of two pad values in np.median, or of a squared deviation)",
+                   "dyadic streams: float64 images with dyadic values (window sums are exact)",
+                   "float32 images: thresholds representable in float32 (NumPy converts the Python float to the array dtype); "
+                   "other thresholds are tolerated through the bound, not demanded",
+                   "integer images: np.pad rounds the pad values (half to even) to the integer dtype; the mechanism model does the "
+                   "same (pad statistic rint o mean / rint o median, theorems interior_any_pad_*)"]
 
     # ------------------------------------------------------------------ generation
     def gen_data(self, rng, shape):
@@ -251,6 +397,11 @@ class C13(Prop):
             yield self.gen_large(random.Random(f"C13-large:{seed}:{tier}:{slot}"), kind, ndim, above, with_model, wide)
 
     def generate(self, rng, tier):
+        r = rng.random()
+        if r < 0.16:
+            return self.gen_fconst(rng)
+        if r < 0.40:
+            return self.gen_fgen(rng)
         ndim = rng.choice([1, 2, 2])
         kind = rng.choice(["mean", "median"])
         if rng.random() < 0.5:
@@ -280,7 +431,181 @@ class C13(Prop):
         return {"kind": kind, "shape": shape, "data": data, "den": rng.choice([1, 1, 4, 8]),
                 "offset": rng.choice([0, 0, 0, 1000, 2 ** 20]), "block": block,
                 "block_int": len(set(block)) == 1 and rng.random() < 0.5,
-                "threshold": thr, "layout": rng.choice(["C", "C", "F", "strided"]), "gen": feats}
+                "threshold": thr, "layout": rng.choice(["C", "C", "F", "strided"]), "gen": feats,
+                "readonly": rng.random() < 0.25}
+
+    # ------------------------------------------------------------------ float streams
+    F32_THR = ["0", "0", 2.0 ** -20, 0.25, 0.5, 0.75, 1.0, 1.5, 2.0, 2.5, 3.0, 3.0, 5.0, 10.0, 2.0 ** 20, "inf", "inf"]
+
+    def gen_geometry(self, rng, ndim, wins, hi):
+        if rng.random() < 0.5:
+            block = [rng.choice(wins)] * ndim
+        else:
+            block = [rng.choice(wins) for _ in range(ndim)]
+        shape = []
+        for b in block:
+            r = rng.random()
+            if r < 0.12:
+                shape.append(b)  # exactly one window
+            elif r < 0.3:
+                shape.append(rng.randint(b, min(hi, 2 * b)))  # no interior pixel along this axis
+            else:
+                shape.append(rng.randint(min(hi, 2 * b + 1), max(hi, 2 * b + 3)))
+        return block, shape
+
+    def gen_const_value(self, rng):
+        cls = rng.choice(["third", "tenth", "milli", "pi-like", "offset", "tiny", "underflow-sq", "small", "huge", "random", "random",
+                          "dyadic-few", "dyadic-few", "dyadic-many"])
+        if cls == "third":
+            c = rng.choice([1, 2, 4, 5, 7, 10, 100]) / 3
+        elif cls == "tenth":
+            c = rng.randint(1, 99) / 10
+        elif cls == "milli":
+            c = 1e-3 * rng.randint(1, 999)
+        elif cls == "pi-like":
+            c = rng.choice([math.pi, math.e, math.sqrt(2), math.log(2), math.pi * 1e5, math.e * 1e-7, 1 / math.pi])
+        elif cls == "offset":
+            c = rng.choice([1e6 + 0.1, 1e15 + 0.3, 123456.789, 2 ** 20 + 1 / 3, 1e9 + 1e-3 * rng.randint(1, 999)])
+        elif cls == "tiny":
+            c = (0.1 + rng.random()) * 10.0 ** -rng.randint(290, 305)
+        elif cls == "underflow-sq":  # ulp(c)^2 is below the smallest double: the spread of the rounding noise is 0
+            c = (0.1 + rng.random()) * 10.0 ** -rng.randint(147, 170)
+        elif cls == "small":
+            c = (0.1 + rng.random()) * 10.0 ** -rng.randint(20, 40)
+        elif cls == "huge":
+            c = (0.05 + 0.9 * rng.random()) * 10.0 ** rng.choice([300, 200, 160, 150])
+        elif cls == "random":
+            c = rng.choice([rng.random(), rng.uniform(-1e3, 1e3), rng.uniform(-1e6, 1e6)])
+        elif cls == "dyadic-few":
+            c = rng.choice([0.25, 1.25, 3 * 2.0 ** -20, 1000.5, 96.0, -7.5, 2.0 ** -40, 0.0, 5.0])
+        else:
+            c = rng.choice([1 + 2.0 ** -52, (2 ** 53 - 1) / 2 ** 30, 1 - 2.0 ** -53, 3 + 2.0 ** -50])
+        if rng.random() < 0.25:
+            c = -c
+        return c, cls
+
+    def gen_dtype(self, rng):
+        return rng.choice(["float64"] * 6 + ["float32"] * 2 + [rng.choice(INT_DTYPES)])
+
+    def gen_fconst(self, rng):
+        ndim = rng.choice([1, 2, 2])
+        kind = rng.choice(["mean", "mean", "median"])
+        block, shape = self.gen_geometry(rng, ndim, [3, 5, 7, 7, 9, 11, 13] if ndim == 1 else [3, 5, 7, 9], 40 if ndim == 1 else 18)
+        dtype = self.gen_dtype(rng)
+        c, cls = self.gen_const_value(rng)
+        if dtype in INT_DTYPES:
+            c, cls = float(rng.randint(0, 255) if dtype.startswith("u") else rng.randint(-1000, 1000)), "integer"
+        elif dtype == "float32":
+            c = float(np.float32(c)) if abs(c) < 1e38 else float(np.float32(math.copysign(1e30, c) * (0.1 + rng.random())))
+        if dtype == "float32":
+            thr = rng.choice(self.F32_THR)
+        else:
+            thr = rng.choice(["0", "0", 5e-324, 1e-300, 1e-16, 1e-8, 0.25, 0.5, 0.9, 1.0, 1.1, 1.5, 2.0, 3.0, 3.0, 10.0, 1e6, 1e300,
+                              "inf", "inf"])
+        return {"stream": "fconst", "kind": kind, "shape": shape, "fconst": hexf(c), "block": block,
+                "block_int": len(set(block)) == 1 and rng.random() < 0.5,
+                "threshold": thr if isinstance(thr, str) and thr == "inf" else hexf(float(thr)), "dtype": dtype,
+                "layout": rng.choice(["C", "C", "F", "strided", "reversed"]), "readonly": rng.random() < 0.3,
+                "gen": ["const:" + cls]}
+
+    def gen_fgen(self, rng):
+        ndim = rng.choice([1, 2, 2])
+        kind = rng.choice(["mean", "median"])
+        block, shape = self.gen_geometry(rng, ndim, [3, 3, 5, 5, 7, 9], 48 if ndim == 1 else 20)
+        dtype = self.gen_dtype(rng)
+        n = int(np.prod(shape))
+        idx = np.indices(shape)
+        style = rng.choice(["gauss", "gauss", "uniform", "lognormal", "plateau", "two", "ramp", "thirds", "fine"])
+        if dtype in INT_DTYPES and style == "fine":
+            style = "gauss"
+        if style == "fine":  # structure a few hundred units in the last place above a large common level: far above the
+            # rounding bound, far below any fixed relative tolerance
+            c0, q = rng.choice([1.0, 1 / 3, 1e5 / 7, 1e-9 * math.pi]), 2.0 ** (-45 if dtype == "float64" else -17)
+            a = np.array([c0 * (1 + rng.randint(-100, 100) * q) for _ in range(n)])
+        elif style == "gauss":
+            mu, sg = rng.choice([0.0, 1.0, 1e3, -5.0]), rng.choice([1.0, 1e-3, 0.1, 7.0])
+            a = np.array([rng.gauss(mu, sg) for _ in range(n)])
+        elif style == "uniform":
+            a = np.array([rng.random() for _ in range(n)])
+        elif style == "lognormal":
+            a = np.array([rng.lognormvariate(0.0, 1.0) for _ in range(n)])
+        elif style == "plateau":
+            w = rng.randint(2, 6)
+            lv = [rng.uniform(-20, 20) for _ in range(64)]
+            a = np.array([lv[int(sum(i // w for i in ix)) % 64] for ix in idx.reshape(len(shape), -1).T])
+        elif style == "two":
+            lo, hi = rng.random(), 1 + rng.random()
+            a = np.array([rng.choice([lo, hi]) for _ in range(n)])
+        elif style == "ramp":
+            a = sum(rng.uniform(-1, 1) * idx[k] for k in range(len(shape))).ravel() + np.array([rng.gauss(0, 0.05) for _ in range(n)])
+        else:  # many ties at non-dyadic values
+            a = np.array([rng.randint(0, 6) / 3 for _ in range(n)])
+        a = np.array(a, dtype=np.float64).reshape(shape)
+        feats = ["fdata:" + style]
+        sd = float(np.std(a)) or 1.0
+        if style == "fine" and dtype == "float32":
+            sd = float(np.std(a.astype(np.float32).astype(np.float64))) or 1.0
+        if rng.random() < 0.7:
+            for _ in range(rng.randint(1, 4)):
+                q = tuple(rng.randrange(s) for s in shape)
+                a[q] += rng.choice([-1, 1]) * rng.choice([3.3, 11.0, 97.0, 1013.0]) * sd
+            feats.append("spikes")
+        if rng.random() < 0.3:
+            q = [rng.randrange(s) for s in shape]
+            sl = tuple(slice(v, v + rng.randint(1, 3)) for v in q)
+            a[sl] += rng.choice([-1, 1]) * rng.choice([9.0, 77.0]) * sd
+            feats.append("cluster")
+        if rng.random() < 0.3:
+            q = [rng.randrange(s) for s in shape]
+            sl = tuple(slice(v, v + rng.randint(2, 12)) for v in q)
+            a[sl] = rng.uniform(-3, 3)
+            feats.append("constant-region")
+        if dtype in INT_DTYPES:
+            a = np.rint(a * rng.choice([1, 10, 100]) / max(1.0, float(np.max(np.abs(a))) / 100))
+            a = np.clip(a + (100 if dtype.startswith("u") else 0), 0 if dtype.startswith("u") else -30000,
+                        255 if dtype == "uint8" else 30000)
+        elif dtype == "float32":
+            a = a * rng.choice([1.0, 1.0, 1e-3, 1e3])
+        else:
+            a = a * rng.choice([1.0, 1.0, 1.0, 1e-3, 1e6, 1e-120, 1e120])
+        if style == "fine":  # keep the levels apart: spikes of a few hundred units too
+            pass
+        if dtype == "float32":
+            thr = rng.choice(self.F32_THR)
+        else:
+            thr = rng.choice(["0", "0", 0.5, 1.0, 1.5, 2.0, 3.0, 3.0, 5.0, 10.0, "inf", 0.1, 0.3, 0.75, 1.2, 2.5, 2.9, 4.4, 1e-3, 1e3])
+        return {"stream": "fgen", "kind": kind, "shape": shape, "fdata": [hexf(v) for v in a.ravel()], "block": block,
+                "block_int": len(set(block)) == 1 and rng.random() < 0.5,
+                "threshold": thr if isinstance(thr, str) and thr == "inf" else hexf(float(thr)), "dtype": dtype,
+                "layout": rng.choice(["C", "C", "F", "strided", "reversed"]), "readonly": rng.random() < 0.3, "gen": feats}
+
+    def float_targeted(self):
+        base = {"stream": "fconst", "block_int": False, "layout": "C", "dtype": "float64", "readonly": False, "gen": ["targeted-float"]}
+        z, one, inf = hexf(0.0), hexf(1.0), "inf"
+        # the kernel-evaluated witness f64_mean_changes_constant / f64_same_signal_otherwise on the real code
+        for kind, blk, thr in (("mean", 7, z), ("mean", 7, one), ("mean", 7, inf), ("median", 7, z), ("mean", 3, z), ("mean", 5, z)):
+            yield {**base, "kind": kind, "shape": [15], "fconst": hexf(0.1), "block": [blk], "threshold": thr, "gen": ["targeted-float", "witness"]}
+        # the audit's example and its neighbours
+        for kind, thr in (("mean", z), ("mean", hexf(3.0)), ("mean", inf), ("median", z)):
+            yield {**base, "kind": kind, "shape": [15, 15], "fconst": hexf(1 / 3), "block": [7, 7], "threshold": thr}
+        # the spread of the rounding noise underflows: every finite threshold
+        yield {**base, "kind": "mean", "shape": [12, 12], "fconst": hexf(1e-300), "block": [9, 9], "threshold": hexf(3.0)}
+        yield {**base, "kind": "mean", "shape": [12, 12], "fconst": hexf(1e-300), "block": [9, 9], "threshold": hexf(1e300)}
+        # window sums exact: bit for bit
+        yield {**base, "kind": "mean", "shape": [9, 9], "fconst": hexf(1.25), "block": [7, 7], "threshold": z}
+        # dtypes, layouts, read-only
+        yield {**base, "kind": "mean", "shape": [15], "fconst": hexf(float(np.float32(0.1))), "block": [7], "threshold": z, "dtype": "float32"}
+        yield {**base, "kind": "mean", "shape": [7, 8], "fconst": hexf(7.0), "block": [5, 5], "threshold": z, "dtype": "int32", "readonly": True}
+        d = [(7 * i * i) % 11 / 10 + (9.7 if i == 37 else 0.0) for i in range(72)]
+        for kind in ("mean", "median"):
+            for dtype, lay, ro, thr in (("float64", "F", True, hexf(2.0)), ("float64", "reversed", True, z), ("float32", "strided", True, hexf(2.0)),
+                                        ("int32", "C", True, hexf(2.0)), ("uint8", "F", False, hexf(1.0)), ("float64", "strided", True, inf),
+                                        ("int64", "reversed", True, z)):
+                vals = [round(v * 10) for v in d] if dtype in INT_DTYPES else d
+                yield {**base, "stream": "fgen", "kind": kind, "shape": [9, 8], "fdata": [hexf(v) for v in vals], "block": [3, 5],
+                       "threshold": thr, "dtype": dtype, "layout": lay, "readonly": ro}
+                yield {**base, "stream": "fgen", "kind": kind, "shape": [24], "fdata": [hexf(v) for v in vals[:24]], "block": [5],
+                       "threshold": thr, "dtype": dtype, "layout": lay if lay != "F" else "C", "readonly": ro}
 
     def targeted(self, tier):
         # the small cases first (a gross defect is then reported, and shrunk, on a small input); the large ones after
@@ -318,35 +643,46 @@ class C13(Prop):
                 yield {**base, "kind": kind, "shape": [23], "data": [(5 * i * i) % 13 + (90 if i == 11 else 0) for i in range(23)],
                        "block": [7], "threshold": thr}
                 yield {**base, "kind": kind, "shape": [6, 6], "data": [3] * 36, "block": [3, 3], "threshold": thr, "block_int": True}
+        yield from self.float_targeted()
 
     # ------------------------------------------------------------------ evaluation
     def evaluate(self, case, ctx):
         from pewlib.process import filters
 
         kind, shape, block = case["kind"], case["shape"], case["block"]
-        vals, x = build(case)
+        fmode = "stream" in case  # float streams: rounding-bound tolerances instead of the dyadic 1e-9
+        dtname = case.get("dtype", "float64")
+        vals, x, base = build(case)
         t = thr_float(case["threshold"])
-        snapshot = x.copy()
+        # snapshots at byte level (NaN-/signed-zero-proof), of the view and of the buffer behind it
+        snap = (x.tobytes(), None if base is None else base.tobytes(), x.shape, x.strides, x.dtype.str,
+                x.flags.writeable, None if base is None else base.flags.writeable)
         blk = block[0] if case["block_int"] else tuple(block)
         fn = filters.rolling_mean if kind == "mean" else filters.rolling_median
+        got = None
         with warnings.catch_warnings(), np.errstate(all="ignore"):
             warnings.simplefilter("ignore")
             try:
                 res = fn(x, blk, threshold=t)
-                got = np.asarray(res, dtype=np.float64)
-                impl = {"shape": list(got.shape), "out": [float(v) for v in got.ravel()]}
+                out_dtype = str(np.asarray(res).dtype)
+                got = np.asarray(res, dtype=np.float64)  # float32 -> float64 is exact
+                impl = {"shape": list(got.shape), "out": [float(v) for v in got.ravel()], "dtype": out_dtype}
             except Exception as e:  # the quantified inputs never raise
                 impl = {"raises": type(e).__name__, "msg": str(e)[:200]}
-        impl["input_unchanged"] = bool(x.shape == snapshot.shape and np.array_equal(x, snapshot))
+        after = (x.tobytes(), None if base is None else base.tobytes(), x.shape, x.strides, x.dtype.str,
+                 x.flags.writeable, None if base is None else base.flags.writeable)
+        impl["input_unchanged"] = bool(after == snap)
 
         n = len(vals)
         sparse = n > SPARSE_ABOVE
+        is_int = np.dtype(dtname).kind in "iu"
+        # integer image: np.pad rounds the pad values (half to even) to the dtype; the mechanism model does the same
         req = dict(kind=kind, shape=shape, data=[core.rat(v) for v in vals], block=block,
-                   threshold=None if math.isinf(t) else core.rat(t))
+                   threshold=None if math.isinf(t) else core.rat(t), pad="rint" if is_int else "exact")
         if sparse:
             changed = []
             if "raises" not in impl and impl["shape"] == shape:
-                changed = np.flatnonzero(~(got.ravel() == snapshot.ravel()))
+                changed = np.flatnonzero(~(got.ravel() == np.array([float(v) for v in vals])))
             pixels = pick_pixels(case, shape, changed)
             rep = ctx.driver.call("c13.at", **req, pixels=pixels, model="all" if case.get("with_model", True) else "no")
             spec_at = dict(zip(pixels, rep["spec"]))
@@ -354,13 +690,19 @@ class C13(Prop):
             rep = ctx.driver.call("c13.filter", **req)
             spec_at = rep["spec"]  # every pixel
         have_model = rep["shape"] is not None  # the whole-array mechanism may be left out for a large image
+        must_unchanged = bool(rep["unchanged"])  # Lean: constant image or infinite threshold
         scale = max(1.0, max(abs(float(v)) for v in vals))
         abs_tol = 1e-12 * scale
         halves = [b // 2 for b in block]
         idx = np.indices(shape).reshape(len(shape), -1).T if n else []
+        # the format pewlib computes in: float32 stays float32, integers are averaged in float64
+        p_bits, emin = FLOAT_DTYPES.get(dtname, FLOAT_DTYPES["float64"])
+        t_used = float(np.float32(t)) if dtname == "float32" else t  # a Python float times a float32 array is float32
+        ftol = FloatTol(p_bits, block, max(abs(float(v)) for v in vals), t, t_used, is_int) if fmode else None
+        xs = [float(v) for v in np.asarray(x, dtype=np.float64).ravel()]  # the input as floats (keeps the sign of a zero)
 
-        def real_window(p):  # no padded value in the window of pixel p
-            return all(h <= i < s - h for i, h, s in zip(p, halves, shape))
+        def real_window(p, reach=1):  # no padded value within `reach` half-windows of pixel p
+            return all(reach * h <= i < s - reach * h for i, h, s in zip(p, halves, shape))
 
         def near(cell, p):
             """exact decision margin below the float tolerance -> either value is acceptable"""
@@ -378,6 +720,13 @@ class C13(Prop):
         def ok_cell(v, cell, p):
             xv, rv = float(unrat(cell["x"])), unrat(cell["repl"])
             is_x = v == xv
+            if fmode:
+                real = real_window(p, 2 if kind == "median" else 1)
+                is_r = abs(Fraction(v) - rv) <= ftol.repl_tol(kind, real) if math.isfinite(v) else False
+                m = ftol.margin(kind, cell, real)
+                if m == "near":
+                    return is_x or is_r, True
+                return (is_r if m == "out" else is_x), False
             is_r = core.close(v, rv, rel=REL, abs_=abs_tol)
             if near(cell, p):
                 return is_x or is_r, True
@@ -388,7 +737,15 @@ class C13(Prop):
                  "thr:" + ("inf" if math.isinf(t) else "zero" if t == 0 else "finite")}
         feats.update(f"b{b}" for b in block)
         feats.update(case.get("gen", []))
-        if case["offset"]:
+        if fmode:
+            feats.add("stream:" + case["stream"])
+            if 0 < t < 1e-6:
+                feats.add("thr:tiny")
+        if dtname != "float64" or fmode:
+            feats.add(f"dtype:{dtname}->{impl.get('dtype', 'raises')}")
+        if case.get("readonly"):
+            feats.add("input:read-only")
+        if case.get("offset"):
             feats.add("offset")
         if any(s == b for s, b in zip(shape, block)):
             feats.add("size==window")
@@ -403,18 +760,50 @@ class C13(Prop):
         model_ok = spec_ok = impl.get("input_unchanged", False) and "raises" not in impl
         bad_model, bad_spec, nears = [], [], 0
         cmp_model = False
+        note = {}
+        constant = len(set(vals)) == 1
         if "raises" not in impl:
             if have_model and impl["shape"] != rep["shape"]:
                 model_ok = False
             if impl["shape"] != shape:
                 spec_ok = False
+            elif must_unchanged:
+                # "constant images and infinite thresholds come back unchanged": every pixel, bit for bit
+                out = impl["out"]
+                spec["unchanged"] = True
+                changed_px = [k for k in range(n) if not (out[k] == xs[k] and math.copysign(1.0, out[k]) == math.copysign(1.0, xs[k]))]
+                bad_spec = changed_px
+                bad_model = list(changed_px) if have_model else []
+                cmp_model = False
+                feats.add("unchanged-clause:" + ("inf" if math.isinf(t) else "constant"))
+                if constant:
+                    feats.add("constant-image")
+                    c = vals[0]
+                    info = ctx.driver.call("c13.constinfo", c=core.rat(c), p=p_bits, emin=emin, n=int(np.prod(block)),
+                                           depth=int(np.prod(block)) + sum(halves))
+                    feats.add("const:sums-exact" if info["sums_exact"] else "const:sums-inexact")
+                    spec["const"] = {"sums_exact": info["sums_exact"], "bound~": float(unrat(info["bound"]))}
+                    if changed_px:
+                        bound = unrat(info["bound"])
+                        devs = [abs(Fraction(out[k]) - c) if math.isfinite(out[k]) else None for k in changed_px]
+                        within = all(d is not None and d <= bound for d in devs)
+                        ulp = math.ulp(float(c)) if p_bits == 53 else float(np.spacing(np.float32(abs(float(c))) or np.float32(1e-45)))
+                        mx = max((d for d in devs if d is not None), default=Fraction(0))
+                        nulp = int(round(float(mx) / ulp)) if ulp > 0 else -1
+                        note["const_dev"] = {"kind": kind, "thr_finite": not math.isinf(t), "sums_exact": bool(info["sums_exact"]),
+                                             "within_bound": bool(within), "max_dev_ulps": nulp, "changed": len(changed_px),
+                                             "pixels": n, "only_failure": bool(impl["input_unchanged"])}
+                        feats.add("const-dev:%s" % ("1ulp" if nulp == 1 else "2ulp" if nulp == 2 else "3+ulp" if within else "beyond-bound"))
+                    else:
+                        feats.add("const-dev:none")
             else:
                 out = impl["out"]
-                n_int = n_repl_int = n_repl_border = 0
+                n_int = n_repl_int = n_repl_border = n_det = 0
                 cmp_model = have_model and impl["shape"] == rep["shape"]
                 if cmp_model:  # the mechanism at every pixel, also of a large image
                     for k in range(n):
-                        ok, nr = ok_cell(out[k], rep["model"][k], tuple(int(i) for i in idx[k]))
+                        pk = tuple(int(i) for i in idx[k])
+                        ok, nr = ok_cell(out[k], rep["model"][k], pk)
                         nears += nr
                         if not ok:
                             bad_model.append(k)
@@ -429,15 +818,21 @@ class C13(Prop):
                     if s["kind"] == "exact":
                         n_int += 1
                         ok, nr = ok_cell(out[k], s, p)
+                        n_det += not nr
                         if not cmp_model:  # (only a large image can be without the mechanism)
                             nears += nr
                         if s["outlier"]:
                             n_repl_int += 1
                     else:
                         xv = float(unrat(s["x"]))
-                        lo, hi = float(unrat(s["lo"])), float(unrat(s["hi"]))
-                        tol = REL * max(abs(lo), abs(hi)) + abs_tol
-                        ok = out[k] == xv or (lo - tol <= out[k] <= hi + tol)
+                        lo, hi = unrat(s["lo"]), unrat(s["hi"])
+                        if fmode:
+                            tol = ftol.repl_tol(kind, False) if kind == "mean" else Fraction(0)
+                            ok = out[k] == xv or (math.isfinite(out[k]) and lo - tol <= Fraction(out[k]) <= hi + tol)
+                        else:
+                            lo, hi = float(lo), float(hi)
+                            tol = REL * max(abs(lo), abs(hi)) + abs_tol
+                            ok = out[k] == xv or (lo - tol <= out[k] <= hi + tol)
                         if out[k] != xv:
                             n_repl_border += 1
                     if not ok:
@@ -447,22 +842,31 @@ class C13(Prop):
                     feats.add("spec-at:all-pixels" if len(spec_at) == n else "spec-at:pixel-set")
                 if n_int:
                     feats.add("has-interior")
+                    if fmode:  # how much of the float stream is demanded rather than tolerated
+                        frac = n_det / n_int
+                        feats.add("determined:" + ("all" if n_det == n_int else ">=99%" if frac >= 0.99 else ">=90%" if frac >= 0.9
+                                                    else "<90%"))
+                        spec["interior_determined"] = [n_det, n_int]
                 if n_repl_int:
                     feats.add("interior-replaced")
                 if n_repl_border:
                     feats.add("border-replaced")
                 if nears:
                     feats.add("near-tie-pixel")
-                if len(set(case["data"])) == 1:
+                if constant:
                     feats.add("constant-image")
             model_ok = model_ok and not bad_model
             spec_ok = spec_ok and not bad_spec
+            # beside the verdict: does pewlib return the bits of the Lean binary64 mechanism (NumPy's order of evaluation)?
+            if fmode and dtname == "float64" and n <= 1024 and impl["shape"] == shape:
+                f64 = ctx.driver.call("c13.f64", kind=kind, shape=shape, block=block, bits=[fbits(v) for v in xs], tbits=fbits(t))
+                feats.add("f64-mechanism:" + ("bit-equal" if f64["bits"] == [fbits(v) for v in impl["out"]] else "differs"))
         model["mismatch_pixels"] = bad_model[:20]
         spec["mismatch_pixels"] = bad_spec[:20]
         if bad_model or bad_spec:
             k = (bad_spec or bad_model)[0]
             model["first"] = {"pixel": k, "coords": [int(i) for i in idx[k]], "impl": impl["out"][k],
-                              "model": rep["model"][k] if cmp_model else None,
+                              "model": rep["model"][k] if have_model and impl["shape"] == rep["shape"] else None,
                               "spec": spec_at[k] if sparse and k in spec_at or not sparse else None}
         impl_view = dict(impl)
         if "out" in impl_view and len(impl_view["out"]) > 64:
@@ -470,11 +874,52 @@ class C13(Prop):
         nontrivial = feats & {"interior-replaced", "border-replaced", "constant-image", "thr:zero", "thr:inf"}
         return outcome(impl_view, model, spec, spec_ok=spec_ok, model_ok=model_ok,
                        undetermined=bool(nears) and spec_ok and model_ok,
-                       features=feats if nontrivial else [])
+                       features=feats if nontrivial else [], note=json.dumps(note) if note else "")
+
+    def known(self, case, out):
+        """the one accepted deviation: the MEAN filter with a FINITE threshold returns a CONSTANT image whose window
+        sums are NOT exact in the computing format with pixels moved by no more than the rounding of a window mean
+        (Lean bound), and nothing else is wrong (shape, input untouched, no exception)"""
+        try:
+            note = json.loads(out.get("note") or "{}")
+        except ValueError:
+            return None
+        d = note.get("const_dev")
+        if not d:
+            return None
+        imp = out.get("impl")
+        if not isinstance(imp, dict) or "raises" in imp or not imp.get("input_unchanged"):
+            return None
+        if d["kind"] != "mean" or not d["thr_finite"] or d["sums_exact"] or not d["within_bound"] or not d["only_failure"]:
+            return None
+        return KNOWN_CONST
 
     # ------------------------------------------------------------------ shrinking
     def shrink(self, case):
         shape, block = case["shape"], case["block"]
+        if "stream" in case:
+            arr = None if "fconst" in case else np.array(case["fdata"], dtype=object).reshape(shape)
+            for ax in range(len(shape)):
+                if shape[ax] > block[ax]:
+                    for sl in (slice(0, shape[ax] - 1), slice(1, shape[ax])):
+                        if arr is None:
+                            yield {**case, "shape": [s - (1 if k == ax else 0) for k, s in enumerate(shape)]}
+                        else:
+                            ss = [slice(None)] * len(shape)
+                            ss[ax] = sl
+                            sub = arr[tuple(ss)]
+                            yield {**case, "shape": list(sub.shape), "fdata": [str(v) for v in sub.ravel()]}
+                        if arr is None:
+                            break
+            if case["layout"] != "C":
+                yield {**case, "layout": "C"}
+            if case.get("readonly"):
+                yield {**case, "readonly": False}
+            if case.get("dtype", "float64") != "float64":
+                yield {**case, "dtype": "float64"}
+            if case.get("block_int"):
+                yield {**case, "block_int": False}
+            return
         if len(case["data"]) > 1024:
             # a large image: every evaluation costs seconds, so cut geometrically (a half or an eighth of an axis from
             # either end), leave the whole-array mechanism out, look at fewer pixels, and simplify layout/offset/
@@ -508,6 +953,8 @@ class C13(Prop):
                     yield {**case, "shape": list(sub.shape), "data": [int(v) for v in sub.ravel()]}
         if case["layout"] != "C":
             yield {**case, "layout": "C"}
+        if case.get("readonly"):
+            yield {**case, "readonly": False}
         if case["offset"]:
             yield {**case, "offset": 0}
         if case["den"] != 1:
